@@ -61,6 +61,9 @@ func ConvertRequest(ctx *fasthttp.RequestCtx, r *http.Request, forServer bool) e
 		switch sk {
 		case "Transfer-Encoding":
 			r.TransferEncoding = append(r.TransferEncoding, sv)
+		case fasthttp.HeaderHost:
+			// net/http promotes the Host header to Request.Host
+			// and removes it from the Header map.
 		default:
 			if sk == fasthttp.HeaderCookie {
 				sv = strings.Clone(sv)
